@@ -2,16 +2,17 @@ package main
 
 import (
 	"bytes"
-	"runtime"
-	"strings"
 	"crypto/sha256"
 	"fmt"
+	"runtime"
+	"strings"
 	"sync"
 	"time"
 
 	"github.com/idena-network/idena-go/blockchain/attachments"
 	"github.com/idena-network/idena-go/blockchain/types"
 	"github.com/idena-network/idena-go/common"
+	"github.com/idena-network/idena-go/common/eventbus"
 	"github.com/idena-network/idena-go/config"
 	"github.com/idena-network/idena-go/core/appstate"
 	"github.com/idena-network/idena-go/core/ceremony"
@@ -21,7 +22,6 @@ import (
 	"github.com/idena-network/idena-go/crypto"
 	"github.com/idena-network/idena-go/crypto/ecies"
 	"github.com/idena-network/idena-go/events"
-	"github.com/idena-network/idena-go/common/eventbus"
 	"github.com/idena-network/idena-go/ipfs"
 	"github.com/idena-network/idena-go/rpc"
 	"github.com/idena-network/idena-go/secstore"
@@ -171,6 +171,8 @@ func (c *knode) attach() {
 	c.timerFired = false
 	c.delayedArmed = false
 	c.settle(before)
+	// a node that restarts on the epoch block completes the epoch again (flipper.Clear drops the keys)
+	c.fixFlipKeys()
 }
 
 // fixFlipKeys: the flipper derives an identity's flip encryption keys of an epoch from a signature through
@@ -196,8 +198,12 @@ func (c *knode) fixFlipKeys() {
 		}
 		c.fl.Clear()
 	}
-	fatal("flip keys of k%d cannot be re-derived", c.key)
+	// not one of the two key pairs the toolchain's derivation can yield for this identity and epoch: the flipper holds on to
+	// something else (the traces show what comes of it)
+	rederiveFailed++
 }
+
+var rederiveFailed int
 
 func (c *knode) takePubs() []pubRec {
 	c.mu.Lock()
@@ -235,12 +241,48 @@ func fatal(format string, a ...interface{}) {
 // the lottery, starts "go delayedFlipPackageBroadcast()" (which sleeps a random 0..119 s on the virtual clock, i.e. parks
 // until the harness runs it - or publishes at once when the draw is 0) and then evaluates tryToBroadcastFlipKeysPackage
 // against the clock.  The harness must not move the clock or take the next step before those goroutines have come to
-// rest, and nothing in the ceremony signals that.  busyGoroutines looks at the goroutine profile: a goroutine whose entry
-// function is asyncFlipLotteryCalculations is still at work; one whose entry function is delayedFlipPackageBroadcast is at
-// work unless it is parked on the virtual clock.
-var stackClass = map[[32]uintptr]bool{}
+// rest, and nothing in the ceremony signals that.  busyGoroutines looks at the goroutines themselves: one with a frame of
+// the lottery / package publication path is at work unless it is blocked on the virtual clock's sleeper channel (a zero
+// draw only yields inside Sleep; on the way to parking a goroutine may wait for the clock's mutex).
+// full = the textual dump of every goroutine (runtime.Stack): it also shows goroutines that were created but have not
+// run yet - they stand in the compiler-made wrapper of their go statement (handleFlipLotteryPeriod.gowrapN,
+// asyncFlipLotteryCalculations.gowrapN) - which the goroutine profile leaves out; used right after a lottery was started.
+// Otherwise the (much cheaper) goroutine profile: enough once everything that was started has begun to run.
+var hotFrames = []string{"asyncFlipLotteryCalculations", ".handleFlipLotteryPeriod.", "delayedFlipPackageBroadcast", "broadcastPrivateFlipKeysPackage",
+	"tryToBroadcastFlipKeysPackage"}
 
-func busyGoroutines() int {
+func isHot(fn string) bool {
+	for _, h := range hotFrames {
+		if strings.Contains(fn, h) {
+			return true
+		}
+	}
+	return false
+}
+
+var stackClass = map[[32]uintptr]bool{}
+var dumpBuf = make([]byte, 1<<22)
+
+func busyGoroutines(full bool) int {
+	if full {
+		for {
+			n := runtime.Stack(dumpBuf, true)
+			if n < len(dumpBuf) {
+				busy := 0
+				for _, blk := range strings.Split(string(dumpBuf[:n]), "\n\n") {
+					if !isHot(blk) || strings.Contains(blk, "main.busyGoroutines") {
+						continue
+					}
+					parked := strings.Contains(blk, "vclock.(*Clock).Sleep") && strings.Contains(blk[:strings.IndexByte(blk+"\n", '\n')], "[chan receive")
+					if !parked {
+						busy++
+					}
+				}
+				return busy
+			}
+			dumpBuf = make([]byte, 2*len(dumpBuf))
+		}
+	}
 	self := callerIsHot()
 	var recs []runtime.StackRecord
 	for n := runtime.NumGoroutine() + 64; ; n *= 2 {
@@ -255,22 +297,16 @@ func busyGoroutines() int {
 	for i := range recs {
 		b, seen := stackClass[recs[i].Stack0]
 		if !seen {
-			// at work: any goroutine with a frame of the lottery / package publication path of the ceremony (a goroutine started by a
-			// go statement begins in a compiler-made wrapper named after the function that contains the statement -
-			// handleFlipLotteryPeriod.gowrapN, asyncFlipLotteryCalculations.gowrapN - and shows nothing but that wrapper until it has
-			// run) that is not blocked in the virtual clock's Sleep (a zero draw only yields there)
 			hot, sleep, park := false, false, false
 			frames := runtime.CallersFrames(recs[i].Stack())
 			for {
 				fr, more := frames.Next()
 				switch {
-				case strings.Contains(fr.Function, "asyncFlipLotteryCalculations"), strings.Contains(fr.Function, ".handleFlipLotteryPeriod."),
-					strings.Contains(fr.Function, "delayedFlipPackageBroadcast"), strings.Contains(fr.Function, "broadcastPrivateFlipKeysPackage"),
-					strings.Contains(fr.Function, "tryToBroadcastFlipKeysPackage"), strings.Contains(fr.Function, "calculateCeremonyCandidates"):
+				case isHot(fr.Function):
 					hot = true
 				case strings.Contains(fr.Function, "vclock.(*Clock).Sleep"):
 					sleep = true
-				case fr.Function == "runtime.gopark":
+				case fr.Function == "runtime.chanrecv" || fr.Function == "runtime.chanrecv1":
 					park = true
 				}
 				if !more {
@@ -293,8 +329,7 @@ func callerIsHot() int {
 	frames := runtime.CallersFrames(pcs[:runtime.Callers(2, pcs)])
 	for {
 		fr, more := frames.Next()
-		if strings.Contains(fr.Function, "broadcastPrivateFlipKeysPackage") || strings.Contains(fr.Function, "tryToBroadcastFlipKeysPackage") ||
-			strings.Contains(fr.Function, "calculateCeremonyCandidates") || strings.Contains(fr.Function, "delayedFlipPackageBroadcast") {
+		if isHot(fr.Function) {
 			return 1
 		}
 		if !more {
@@ -309,7 +344,7 @@ func (c *knode) settle(before []*vclock.Sleeper) {
 	st := c.n.App.State
 	deadline := time.Now().Add(120 * time.Second)
 	lot := st.ValidationPeriod() == state.FlipLotteryPeriod && c.n.Chain.Head.Flags().HasFlag(types.FlipLotteryStarted)
-	for (lot && !c.vc.VerifLotteryReady()) || busyGoroutines() > 0 {
+	for (lot && !c.vc.VerifLotteryReady()) || busyGoroutines(lot) > 0 {
 		if time.Now().After(deadline) {
 			fatal("node k%d: the goroutines of the flip lottery did not settle", c.key)
 		}
@@ -364,13 +399,13 @@ type base struct {
 	inject    map[uint64]*injection
 	epoch1    uint16 // epoch of round 1
 
-	flips  [3]map[int][][]byte       // round -> author -> cids
-	plain  map[string][2][]byte      // cid -> plaintext public / private part
-	akeys  [3]map[int]*authorKeys    // round -> author -> keys
-	forged map[string]*msg           // name -> pre-built message (see msgs.go)
-	msgs   []*msg                    // all messages of the world by id-1 (forged ones; genuine ones are per scenario)
-	vOf    [3]int64                  // validation time of the round
-	derive int                       // distinct public flip keys that 16 flipper incarnations of one identity derived for one epoch
+	flips  [3]map[int][][]byte    // round -> author -> cids
+	plain  map[string][2][]byte   // cid -> plaintext public / private part
+	akeys  [3]map[int]*authorKeys // round -> author -> keys
+	forged map[string]*msg        // name -> pre-built message (see msgs.go)
+	msgs   []*msg                 // all messages of the world by id-1 (forged ones; genuine ones are per scenario)
+	vOf    [3]int64               // validation time of the round
+	derive int                    // distinct public flip keys that 16 flipper incarnations of one identity derived for one epoch
 }
 
 // deriveProbe: how many different flip encryption keys do flipper incarnations of the same identity derive for the same
